@@ -460,7 +460,7 @@ def run(ctx):
         if rc:
             cases = [dict(rc, id=1)]
     else:
-        n_expr, n_mixed, n_val = (450, 120, 450) if ctx.quick() else (8000, 2000, 6000)
+        n_expr, n_mixed, n_val = (900, 200, 800) if ctx.quick() else (8000, 2000, 6000)
         cid = len(cases) + 1
         for _ in range(n_expr):
             cases.append(gen_expr_case(rng, cid)); cid += 1
